@@ -17,6 +17,7 @@ var (
 	subC03Decode = register("C03", "decode", checkC03Decode)
 	subC03Stable = register("C03", "stable", checkC03Stable)
 	subC03Views  = register("C03", "views", checkC03Views)
+	subC03App    = register("C03", "appbits", checkC03Appbits)
 )
 
 // checkC03Decode: RFC-well-formed image -> decoded exactly to what it was built from;
@@ -100,6 +101,38 @@ func checkC03Decode(r *run, c *WireCase) (CaseInfo, error) {
 		if !bytes.Equal(out, img) {
 			return ci, failf("canonical image is not re-encoded byte-identically:\n in:  %s\n out: %s", hx(img), hx(out))
 		}
+	}
+
+	return ci, nil
+}
+
+// AppbitsCase: a packet whose extension profile is 0x1000+K (K = 1..15), i.e. the RFC 8285 two-byte form with
+// application bits - which pion/rtp documents and treats as an RFC 3550 profile. The block is built so that both
+// readings are well-formed (one two-byte element of id ID with a 2-byte value = one 32-bit word of opaque data):
+// whatever the reading, the profile reported is the one on the wire and re-encoding gives the input back.
+type AppbitsCase struct {
+	K  int   `json:"k"`
+	ID uint8 `json:"id"`
+}
+
+func checkC03Appbits(r *run, c *AppbitsCase) (CaseInfo, error) {
+	var ci CaseInfo
+	ci.Nontrivial = true
+	prof := uint16(0x1000 + c.K)
+	img := []byte{0x90, 0x60, 0x12, 0x34, 0, 0, 0, 9, 0, 0, 0, 7, byte(prof >> 8), byte(prof), 0x00, 0x01, c.ID, 2, 0xAA, 0xBB, 0xC1, 0xC2}
+	var p rtp.Packet
+	if err := p.Unmarshal(clone(img)); err != nil {
+		return ci, failf("packet with extension profile %#x rejected: %v (%s)", prof, err, hx(img))
+	}
+	if !p.Extension || p.ExtensionProfile != prof {
+		return ci, failf("packet with extension profile %#x decodes to X=%v profile %#x", prof, p.Extension, p.ExtensionProfile)
+	}
+	if !bytes.Equal(p.Payload, img[20:]) {
+		return ci, failf("packet with extension profile %#x: payload %s, want %s", prof, hx(p.Payload), hx(img[20:]))
+	}
+	out, err := p.Marshal()
+	if err != nil || !bytes.Equal(out, img) {
+		return ci, failf("packet with extension profile %#x is re-encoded as %s (err %v), input %s", prof, hx(out), err, hx(img))
 	}
 
 	return ci, nil
@@ -286,7 +319,7 @@ func genStableCase(t *rapid.T) *StableCase {
 	return &StableCase{In: genHostile(t, "in")}
 }
 
-const ruleC03 = "decode: wire images laid out by the independent reference builder from the RFC 3550/8285 grammar (any CC, one-byte/two-byte/legacy block, 0-5 (occasionally 6-1000) zero bytes before elements, trailing zeros and zero words, arbitrary RTP pad bytes, optional id-15 element with arbitrary tail, one image in six repeating an element id, one in a hundred with 255-700 elements) must decode to the model; canonical layouts must re-encode byte-identically. stable: every accepted input (valid images and 1-3 byte mutations, random strings) must re-encode to an equal packet and a byte-stable image, or report invalid padding for P with zero count. views: One/TwoByteHeaderExtension and RawExtension on the exact block (fresh view values, or ones that decoded another block and answered GetIDs/Get before). Non-trivial = padding between elements / flush element / zero-length element / id-15 / CC>0 with extension and padding (decode), accepted input (stable), block with >=1 element (views); distinct = FNV-64 of the JSON case"
+const ruleC03 = "decode: wire images laid out by the independent reference builder from the RFC 3550/8285 grammar (any CC, one-byte/two-byte/legacy block, 0-5 (occasionally 6-1000) zero bytes before elements, trailing zeros and zero words, arbitrary RTP pad bytes, optional id-15 element with arbitrary tail, one image in six repeating an element id, one in a hundred with 255-700 elements) must decode to the model; canonical layouts must re-encode byte-identically. stable: every accepted input (valid images and 1-3 byte mutations, random strings) must re-encode to an equal packet and a byte-stable image, or report invalid padding for P with zero count. appbits: the 15 profiles 0x1001-0x100F on a block that is well-formed both as RFC 3550 data and as one two-byte element: profile kept, payload right, re-encoded identically. views: One/TwoByteHeaderExtension and RawExtension on the exact block (fresh view values, or ones that decoded another block and answered GetIDs/Get before). Non-trivial = padding between elements / flush element / zero-length element / id-15 / CC>0 with extension and padding (decode), accepted input (stable), block with >=1 element (views); distinct = FNV-64 of the JSON case"
 
 func TestC03(t *testing.T) {
 	r := begin(t, "C03", "exploration", ruleC03)
@@ -294,4 +327,9 @@ func TestC03(t *testing.T) {
 	subC03Decode.rapidRun(r, n(15000, 300000), func(t *rapid.T) *WireCase { return genWireCase(t, true) })
 	subC03Stable.rapidRun(r, n(25000, 500000), genStableCase)
 	subC03Views.rapidRun(r, n(8000, 150000), func(t *rapid.T) *WireCase { return genWireCase(t, false) })
+	for k := 1; k <= 15; k++ {
+		for _, id := range []uint8{1, 15, 200} {
+			subC03App.one(r, &AppbitsCase{K: k, ID: id})
+		}
+	}
 }
